@@ -873,6 +873,29 @@ def _fkey(f):
 def _total_cmp(I, a, ci, dt):
     x = I.deref_value(a[0]) if isinstance(a[0], Ref) else a[0]
     y = I.deref_value(a[1]) if isinstance(a[1], Ref) else a[1]
+    if ci.method == 'partial_cmp':
+        # IEEE comparison: -0 == +0, NaN is unordered
+        if x.kind == 'py' and y.kind == 'py':
+            if x.v != x.v or y.v != y.v:
+                return NONE
+            return Some(LESS() if x.v < y.v else (EQUAL() if x.v == y.v else GREATER()))
+        xv = x.v if x.kind == 'int' else None
+        yv = y.v if y.kind == 'int' else None
+        for f, which in ((x, 'x'), (y, 'y')):
+            if f.kind == 'py':
+                if f.v != f.v:
+                    return NONE
+                if f.v in (float('inf'), float('-inf')) or f.v != int(f.v):
+                    raise Unmodelled('mixed float comparison')
+                if which == 'x':
+                    xv = int(f.v)
+                else:
+                    yv = int(f.v)
+        if I.branch(cmp_scalar('Lt', xv, yv)):
+            return Some(LESS())
+        if I.branch(cmp_scalar('Gt', xv, yv)):
+            return Some(GREATER())
+        return Some(EQUAL())
     if x.kind == 'py' and y.kind == 'py':
         import struct
 
@@ -907,8 +930,6 @@ def _total_cmp(I, a, ci, dt):
                 r = LESS() if x.negzero else GREATER()
             else:
                 r = EQUAL()
-    if ci.method == 'partial_cmp':
-        return Some(r)
     return r
 
 
